@@ -422,6 +422,35 @@ func c11Run(rc *core.RunCtx) {
 			}
 		}
 		rec("", 0)
+		// bodies that begin with an escape introducer, two units longer: an escape needs up to 8
+		// characters after its letter, and the character that cuts it short may come second or third
+		lead := maxLen
+		maxLen += 2
+		for _, e := range []string{"\\x", "\\u", "\\U", "\\N", "\\0", "\\4"} {
+			var rec2 func(body string, n int)
+			rec2 = func(body string, n int) {
+				if rc.Expired() || rc.Done() {
+					return
+				}
+				if n > lead {
+					for _, pf := range []string{"", "b", "u"} {
+						lit := pf + "'" + body + "'"
+						for _, m := range c11Modes {
+							if rc.Take() {
+								c11One(rc, lit, m, "literal")
+							}
+						}
+					}
+				}
+				if n == maxLen {
+					return
+				}
+				for _, u := range units {
+					rec2(body+u, n+1)
+				}
+			}
+			rec2(e, 2)
+		}
 	}
 	// (6) size limits: many constants / names / long jumps / deep nesting
 	rc.Part = "limits"
